@@ -3,10 +3,11 @@
 From Coq Require Import ExtrOcamlBasic.
 From Coq Require Extraction.
 From I18n Require Import Lib.Outcome Model.IntExpr Model.PluralForms
-  Model.FmtPerlBrace Model.FmtPython Model.FmtInstances Spec.CPyPercent.
+  Model.FmtPerlBrace Model.FmtPython Model.FmtPyBrace Model.FmtInstances Spec.CPyPercent Spec.CPyFormat Generated.Ucd.
 Extraction Language OCaml.
 Extraction "model.ml"
   IntExpr.parse_string IntExpr.pyeval IntExpr.codomain IntExpr.period
   PluralForms.parse_plural_forms PluralForms.check_plurals_core
   FmtInstances.perl_parse_ucd FmtPerlBrace.names_of
-  FmtInstances.fmtpy_parse_gen CPyPercent.cpy_events CPyPercent.cpy_syntax_error CPyPercent.plain_percents CPyPercent.cpy_format.
+  FmtInstances.fmtpy_parse_gen CPyPercent.cpy_events CPyPercent.cpy_syntax_error CPyPercent.plain_percents CPyPercent.cpy_format
+  FmtInstances.pybrace_parse_gen CPyFormat.cpy_markup CPyFormat.cpy_format Ucd.re_d_value.
